@@ -909,6 +909,8 @@ class xRFM:
             if y.is_floating_point():
                 if len(y.shape) == 1:
                     y = y[:, None]
+                if len(y_val.shape) == 1:
+                    y_val = y_val[:, None]
                 assert len(y.shape) == 2
 
                 self.n_classes_ = max(2, y.shape[1])
